@@ -198,6 +198,28 @@ def run_case(case):
             except Exception:
                 pass
 
+        # trace of what happens to the original computations in the orchestrator's (= the directory's) discovery
+        from pydcop.infrastructure import discovery as disc_mod
+        dir_trace = []
+        orig_dreg = disc_mod.Discovery.register_computation
+        orig_dunreg = disc_mod.Discovery.unregister_computation
+
+        def _callers():
+            import traceback
+            return "<".join(f.name for f in reversed(traceback.extract_stack(limit=7)[:-2]))
+
+        def dreg(self, computation, agent=None, *a, **kw):
+            if self.own_agent == "orchestrator" and computation in vnames and len(dir_trace) < 400:
+                dir_trace.append(("reg", computation, agent, round(time.time() % 1000, 3), _callers()))
+            return orig_dreg(self, computation, agent, *a, **kw)
+
+        def dunreg(self, computation, agent=None, *a, **kw):
+            if self.own_agent == "orchestrator" and computation in vnames and len(dir_trace) < 400:
+                dir_trace.append(("unreg", computation, agent, round(time.time() % 1000, 3), _callers()))
+            return orig_dunreg(self, computation, agent, *a, **kw)
+
+        disc_mod.Discovery.register_computation = dreg
+        disc_mod.Discovery.unregister_computation = dunreg
         oa_mod.OrchestratedAgent.__init__ = init
         orch_mod.AgentsMgt._agents_removal = removal
         orch_mod.AgentsMgt._dump_repair_metrics = dump
@@ -258,6 +280,8 @@ def run_case(case):
         finally:
             c22._patch_state["naps"] = None
             sys.setswitchinterval(old_switch)
+            disc_mod.Discovery.register_computation = orig_dreg
+            disc_mod.Discovery.unregister_computation = orig_dunreg
             oa_mod.OrchestratedAgent.__init__ = orig_init
             orch_mod.AgentsMgt._agents_removal = orig_removal
             orch_mod.AgentsMgt._dump_repair_metrics = orig_dump
@@ -316,8 +340,10 @@ def run_case(case):
                 return Outcome(False, "after the repair of event %d (%r left; orphaned %r with replicas %r; status "
                                       "written: %s): %s [%s]" % (
                                           ei, sorted(leaving), orphaned, {c: rec["replicas"][c] for c in orphaned},
-                                          s["status"], "; ".join(problems[:4]) + " | directory %r | actual %r" % (
-                                              s["directory"], s["actual"]), ctx),
+                                          s["status"], "; ".join(problems[:4]) + " | directory %r | actual %r | "
+                                          "directory trace for the orphaned computations %r" % (
+                                              s["directory"], s["actual"],
+                                              [t for t in dir_trace if t[1] in orphaned][-8:]), ctx),
                                nontrivial, labels, info={"kind": kind, "status": s["status"], "problems": problems[:6]})
         return Outcome(True, "", nontrivial, labels)
     except UnderTestError as e:
